@@ -24,7 +24,13 @@ import (
 	"time"
 )
 
-const root = "/verif"
+// root is the framework directory: /verif, or the snapshot a background run was started from (VERIF_ROOT).
+var root = func() string {
+	if r := os.Getenv("VERIF_ROOT"); r != "" {
+		return r
+	}
+	return "/verif"
+}()
 
 type tierCfg struct {
 	Checks   int           // rapid cases over all shards
